@@ -59,6 +59,15 @@ def cases(tier: str, seed: int) -> List[Dict[str, Any]]:
                 for cfg in lattice(op, 2, fixed={"dtype": dt}, restrict=restr):
                     if repr(sorted(cfg.items(), key=str)) not in one:
                         out.append({"kind": "fn", "op": name, "cfg": cfg, "backend": be, "seed": seed})
+            # broadcasting patterns x constraints for add (the broadcast size enters the gradient scales)
+            if name == "add":
+                from models.ops import default_cfg as _dcfg
+
+                for pat in op.coords["pattern"]:
+                    for con in op.coords["constraint"]:
+                        cfga = dict(_dcfg(op), dtype="float32", pattern=pat, constraint=con)
+                        if op.valid(cfga):
+                            out.append({"kind": "fn", "op": name, "cfg": cfga, "backend": be, "seed": seed})
             # requires_grad pattern: one float operand frozen at a time (bias-only fine-tuning, frozen embeddings)
             from models.ops import default_cfg
 
@@ -88,6 +97,12 @@ def cases(tier: str, seed: int) -> List[Dict[str, Any]]:
         for mod in MODULES:
             for dt in ("float32", "float64"):
                 out.append({"kind": "module", "module": mod, "dtype": dt, "backend": be, "seed": seed})
+        if be == "aot_eager":
+            # history on a module compiled with the LIBRARY's compile transform: a hyperparameter attribute is changed
+            # after the first call; the next call honours it like eager does
+            for which in ("GELU.mult", "SiLU.mult", "Softmax.mult", "Softmax.constraint", "Linear.constraint", "TransformerLayer.mhsa_tau",
+                          "TransformerLayer.mlp_tau", "MHSA.is_causal", "Dropout.p"):
+                out.append({"kind": "attr_history", "which": which, "backend": be, "seed": seed})
         comps = [list(c) for c in itertools.product(UNARY, repeat=2)]
         if tier == "thorough":
             comps += [list(c) for c in itertools.product(UNARY[:5], repeat=3)]
@@ -109,7 +124,7 @@ def cases(tier: str, seed: int) -> List[Dict[str, Any]]:
             out.append({"kind": "comp", "ops": c, "backend": be, "dtype": "float32" if len(c) % 2 == 0 else "float64", "seed": seed})
     # scheduling only: the expensive compilations (whole modules, long compositions) first, so that the pool
     # does not end on them
-    rank = {"module": 0, "comp": 1, "multi_out": 2}
+    rank = {"attr_history": 0, "module": 0, "comp": 1, "multi_out": 2}
     out.sort(key=lambda c: (rank.get(c["kind"], 3), -len(c.get("ops", []))))
     return out
 
@@ -357,6 +372,48 @@ def run_case(case: Dict[str, Any]) -> Dict[str, Any]:
         except Exception:  # noqa - not symbolically traceable (einops / data-dependent control flow): outside the clause
             pass
         return {"violations": viol, "steps": 3, "nontrivial": graphs[0] > 0, "outcome": f"{be_name}:module"}
+
+    if case["kind"] == "attr_history":
+        import unit_scaling as uu
+        from unit_scaling.transforms import compile as uu_compile
+
+        cls, attr = case["which"].split(".")
+        ident = f"attr_history|{case['which']}"
+        torch.manual_seed(7)
+        g = torch.Generator().manual_seed(9)
+        x3 = torch.randn(2, 5, 8, generator=g)
+        mk = {"GELU": lambda: uu.GELU(mult=1.0, constraint=None), "SiLU": lambda: uu.SiLU(mult=1.0, constraint=None),
+              "Softmax": lambda: uu.Softmax(dim=-1, mult=1.0), "Linear": lambda: uu.Linear(8, 6),
+              "TransformerLayer": lambda: uu.TransformerLayer(8, 2, 0.5, 0.7, is_causal=True),
+              "MHSA": lambda: uu.MHSA(8, 2, is_causal=False), "Dropout": lambda: uu.Dropout(p=0.0)}[cls]
+        newval = {"mult": 0.5, "constraint": None, "mhsa_tau": 0.9, "mlp_tau": 0.2, "is_causal": True, "p": 0.0}[attr]
+        if case["which"] == "Softmax.constraint":
+            mk = lambda: uu.Softmax(dim=-1, mult=0.5)  # noqa: E731
+        if case["which"] == "Linear.constraint":
+            newval = "to_grad_input_scale"
+        try:
+            m = mk()
+            cm = uu_compile(m)
+
+            def call(mod: Any) -> Any:
+                a = x3.clone().requires_grad_(True)
+                leaves = [a] + list(mod.parameters())
+                return run(mod, [a], leaves)
+
+            y0e, g0e = call(m)
+            y0c, g0c = call(cm)
+            for mod in (m, cm):
+                setattr(mod, attr, newval)
+            y1e, g1e = call(m)
+            y1c, g1c = call(cm)
+        except Exception as e:  # noqa
+            return {"violations": [exception_violation(e, ident)], "outcome": "raises"}
+        tol = 2e-4  # (inductor behind the library transform)
+        for tag, (ye, ge, yc, gc) in {"first_call": (y0e, g0e, y0c, g0c), "after_attribute_change": (y1e, g1e, y1c, g1c)}.items():
+            if not _close(yc, ye, tol) or any(not _close(a, b, tol, floor=3.0) for a, b in zip(gc, ge)):
+                viol.append({"key": ident + f"|compiled_differs|{tag}", "msg": f"{attr} -> {newval!r}"})
+        changed = not _close(y1e, y0e, 1e-6) or any(not _close(a, b, 1e-6) for a, b in zip(g1e, g0e))
+        return {"violations": viol, "steps": 4, "nontrivial": changed or attr == "p", "outcome": "attr_history"}
 
     if case["kind"] == "fx_big":
         # plain fx tracing at sizes where forward and backward factors are far apart (fan-in / softmax width 4096)
